@@ -67,7 +67,7 @@ func (u *Unit) callVals(fr *Frame, st *State, c *ssa.CallCommon, fn Val, args []
 	case *ClosureVal:
 		key := funcKey(f.Fn)
 		if ct := u.prog.specs.Contracts[key]; ct != nil && ct.Flags["modular"] != "" {
-			return resultsToVal(sig, u.applyContract(fr, st, ct, f.Fn.Signature, args, false, pos, key))
+			return resultsToVal(sig, u.applyClosureContract(fr, st, ct, f.Fn, args, f.Bindings, pos, key))
 		}
 		return u.inline(fr, st, f.Fn, args, f.Bindings, pos)
 	case *FnVal:
@@ -114,6 +114,9 @@ func (u *Unit) callStatic(fr *Frame, st *State, fn *ssa.Function, args []Val, po
 	// synthetic wrappers ($bound, $thunk): unwrap when trivially possible
 	if fn.Synthetic != "" && strings.HasPrefix(fn.Synthetic, "bound method wrapper") {
 		// bound wrapper: FreeVars[0] is the receiver; cannot be reached through FnVal
+	}
+	if ct := u.prog.specs.Contracts[key]; ct != nil && ct.Flags["returns"] != "" {
+		return u.returnsClosure(fr, st, fn, ct, args, pos)
 	}
 	if ct := u.prog.specs.Contracts[key]; ct != nil && ct.Flags["inline"] == "" {
 		hasRecv := sig.Recv() != nil
@@ -246,6 +249,13 @@ func (u *Unit) applyContract(fr *Frame, st *State, ct *Contract, sig *types.Sign
 		u.checkCallFrame(st, items, false, pos, key)
 		u.havocItems(st, items)
 	}
+	if ct.Flags["writes-boxed-pointers"] != "" {
+		// e.g. rows.Scan(&a, &b): every cell whose address was boxed into an
+		// interface by this activation may be overwritten
+		for _, o := range st.boxed {
+			u.storeVal(st, o.t, o.ptr, u.freshVal(st, o.t, "scanned"))
+		}
+	}
 	pre := st.now
 	st.now = u.ctx.FreshConst("now", SInt)
 	u.assume(st, Ge(st.now, pre))
@@ -288,10 +298,28 @@ func (u *Unit) applyContract(fr *Frame, st *State, ct *Contract, sig *types.Sign
 			env.vars[n] = envVar{results[i], rs.At(i).Type()}
 		}
 	}
+	// ghost assignments: right-hand sides are evaluated in the state before the call
+	u.applyGhostSets(ct, oldEnv, st)
 	for _, e := range ct.Ensures {
 		u.assume(st, u.evalBoolF(env, st, e.Expr))
 	}
 	return results
+}
+
+// applyGhostSets performs the ghost assignments of a contract in st.
+func (u *Unit) applyGhostSets(ct *Contract, env *Env, st *State) {
+	for _, gs := range ct.GhostSets {
+		g, ok := u.prog.specs.GhostVars[gs.Var]
+		if !ok {
+			unsupp("ghostset %s: not a ghost variable", gs.Var)
+		}
+		_, sort := u.resolveType(g.GoType, g.PkgPath)
+		v := u.evalTerm(env, gs.Expr)
+		if v.Sort != sort {
+			unsupp("ghostset %s: sort %s, want %s", gs.Var, v.Sort, sort)
+		}
+		u.storeLoc(st, "G!"+gs.Var, sort, ghostPtr, v)
+	}
 }
 
 func cloneVars(m map[string]envVar) map[string]envVar {
@@ -601,4 +629,41 @@ func (u *Unit) fvCallOrEmpty() map[string]freeVarInfo {
 		return u.fvCall
 	}
 	return map[string]freeVarInfo{}
+}
+
+// returnsClosure: contract flag returns=<name>$k. The callee is a constructor
+// that returns its k-th closure; the closure's captured variables that are
+// parameters of the constructor hold the arguments of this call. The
+// constructor's own side effects are those of its contract (modifies).
+func (u *Unit) returnsClosure(fr *Frame, st *State, fn *ssa.Function, ct *Contract, args []Val, pos token.Pos) Val {
+	name := ct.Flags["returns"]
+	var cl *ssa.Function
+	for _, an := range fn.AnonFuncs {
+		if an.Name() == name || strings.HasSuffix(funcKey(an), name) {
+			cl = an
+		}
+	}
+	if cl == nil {
+		unsupp("returns=%s: no such closure in %s", name, fn)
+	}
+	hr := fn.Signature.Recv() != nil
+	u.checkPre(fr, st, ct, fn.Signature, args, pos, funcKey(fn), &hr)
+	var bind []Val
+	for _, fv := range cl.FreeVars {
+		r := u.newRef(st, "cap_"+fv.Name())
+		p := mkptr(r, IntLit(0))
+		elem := ptrElem(fv.Type())
+		var v Val
+		for i, prm := range fn.Params {
+			if prm.Name() == fv.Name() && i < len(args) {
+				v = args[i]
+			}
+		}
+		if v == nil {
+			v = u.freshVal(st, elem, "cap_"+fv.Name())
+		}
+		u.storeVal(st, elem, p, v)
+		bind = append(bind, p)
+	}
+	return &ClosureVal{Fn: cl, Bindings: bind}
 }
